@@ -15,6 +15,19 @@ from .monitors import key
 from .report import fbits
 
 
+class ReplacedGSC:
+    """a stop condition installed AFTER construction (the resume recipe: tree._gsc = ...): keeps running for a while longer, then defers"""
+
+    def __init__(self, inner, until):
+        self.inner, self.until = inner, until
+
+    def __call__(self, tree):
+        return False if tree.metaepoch_count < self.until else bool(self.inner(tree))
+
+    def __str__(self):
+        return f"ReplacedGSC({self.inner}, {self.until})"
+
+
 class CountingObjective:
     def __init__(self, f):
         self.f, self.n = f, 0
@@ -118,16 +131,25 @@ def _work_inner(seed):
         target = rng.randint(0, 6)
         steps = 0
         loaded = None
+        replaced = False
         while steps <= 40:
             stop = bool(tree._gsc(tree))
+            if (steps >= target or stop) and not replaced and rng.random() < 0.35:
+                # the user replaces the stop condition of the live tree before snapshotting it
+                tree._gsc = ReplacedGSC(tree._gsc, tree.metaepoch_count + 2)
+                replaced = True
+                stop = bool(tree._gsc(tree))
             if steps >= target or stop:
                 # ---- dump / load at this boundary
                 has_nan = spec["objective"]["kind"] == "nanhole"
                 s0 = None if has_nan else tree.summary()
                 d0, r0 = deep(tree), rng_state()
                 calls0 = sum(o.n for o in objs)
+                gsc0, mech0 = tree._gsc, tree._sprout_mechanism
                 tree.pickle_dump(path)
                 d1, r1 = deep(tree), rng_state()
+                if tree._gsc is not gsc0 or tree._sprout_mechanism is not mech0 or bool(tree._gsc(tree)) != stop:
+                    viol.append(("C19/dump-alters-tree", f"pickle_dump replaced the live tree's stop condition / sprout mechanism (verdict before {stop}, after {bool(tree._gsc(tree))})"))
                 if d1 != d0:
                     viol.append(("C19/dump-alters-tree", f"pickle_dump changed the live tree at metaepoch {tree.metaepoch_count}"))
                 if r1 != r0:
@@ -174,6 +196,10 @@ def _work_inner(seed):
                 if vs:
                     break
             res["resumed_steps"] = k
+            # a second restore of the same untouched file is again the snapshot, not the advanced copy
+            again = tree_mod.DemeTree.pickle_load(path)
+            if again is loaded or deep(again) != d0:
+                viol.append(("C19/second-restore", f"loading the same snapshot file again does not give the snapshotted tree (metaepoch {again.metaepoch_count} instead of {d0[0]})"))
             np.random.set_state(("MT19937", np.frombuffer(rs[0], dtype=np.uint32), rs[1], rs[2], rs[3]))
             import random as pyr
             pyr.setstate(rs[4])
